@@ -1,7 +1,19 @@
-// Binding of the configurable codec (igris/protocols/gstuff.{h,cpp}); compiled with -fno-access-control
-// only so that implkey() can read the three private automaton fields for C05's BFS key.
+// Binding of the configurable codec (igris/protocols/gstuff.{h,cpp}).
+//
+// Everything except implkey() uses the public API only (init, newchar and its status codes, size(), cstr()).
+// implkey() - the receiver's contribution to C05's BFS state key - comes in three grades, chosen by build.sh:
+//   default            reads the private automaton fields line/crc/state (needs -fno-access-control and those NAMES);
+//   -DGS_PUBLIC_ONLY   no private name is mentioned.  The key is every public observer (size(), the cstr() bytes) plus
+//                      a behavioural fingerprint of the hidden part: the answers of COPIES of the receiver to a fixed
+//                      set of short probe sequences (see probe_key()).  Used when the default does not compile
+//                      (members renamed/restructured) and by C04, which never needs the key at all;
+//   -DGS_PUBLIC_ONLY and the receiver is not copy-constructible, or -DGS_NO_PROBE:
+//                      no sound fingerprint -> key_mode() == 2 and the BFS keys on the symbol history (no merging on
+//                      hidden state, depth-bounded).
 #include "gs_iface.hpp"
+#include <cstring>
 #include <igris/protocols/gstuff.h>
+#include <type_traits>
 
 namespace gs
 {
@@ -17,10 +29,13 @@ namespace gs
     struct CfgReceiver : Receiver
     {
         gstuff_autorecv r;
-        CfgReceiver(int codec, uint8_t *buf, int cap) : r(ctx_of(codec)) { r.init(buf, cap); }
-        Status feed(uint8_t c) override
+        uint8_t *buf_;
+        int cap_;
+        Markers M_;
+        CfgReceiver(int codec, uint8_t *buf, int cap) : r(ctx_of(codec)), buf_(buf), cap_(cap), M_(cfg_markers(codec)) { r.init(buf, cap); }
+        static Status norm(int st)
         {
-            switch (r.newchar((char)c))
+            switch (st)
             {
             case GSTUFF_CONTINUE:
                 return CONTINUE;
@@ -40,6 +55,7 @@ namespace gs
                 return OTHER;
             }
         }
+        Status feed(uint8_t c) override { return norm(r.newchar((char)c)); }
         std::vector<uint8_t> packet() override
         {
             size_t n = r.size();
@@ -48,6 +64,7 @@ namespace gs
         }
         size_t stored() override { return r.size(); }
         std::vector<uint8_t> stored_bytes() override { return packet(); }
+#ifndef GS_PUBLIC_ONLY
         std::string implkey() override
         {
             char h[64];
@@ -60,7 +77,101 @@ namespace gs
             }
             return s;
         }
+#else
+        std::string public_part()
+        {
+            std::vector<uint8_t> b = packet();
+            char h[32];
+            snprintf(h, sizeof h, "P l%zu:", b.size());
+            std::string s = h;
+            for (uint8_t c : b)
+            {
+                snprintf(h, sizeof h, "%02x", c);
+                s += h;
+            }
+            return s;
+        }
+        // Behavioural fingerprint of the hidden state.  What the receiver hides behind size()/cstr() is: which phase it is
+        // in (idle / in frame / escape pending) and the running CRC.  Probes, each fed to a fresh COPY (the shared
+        // receive buffer is saved and restored around them):
+        //   [a] [START] [STOP] [STUB]                      -> phase (GARBAGE / CONTINUE / OVERFLOW / STUFF_ERROR / RESTART ...)
+        //   [code, STOP] for the three escape codes          -> the CRC bit that matters when one slot is left and an
+        //                                                       escape is pending
+        //   [esc(x), STOP] and [code(START), esc(x), STOP]   -> the byte x in 0..255 that closes the CRC now / after a
+        //                                                       pending escape has been completed: the CRC value itself
+        // Two states with equal public observers and equal answers to all of these react alike to every continuation
+        // of the receiver as specified (phase and CRC are all it keeps besides the stored bytes).
+        template <class R> std::string probe_key(const R &orig)
+        {
+            std::vector<uint8_t> save(buf_, buf_ + cap_);
+            std::string s = "|probe";
+            auto run = [&](const uint8_t *seq, int n) {
+                R c(orig);
+                Status st = CONTINUE;
+                for (int i = 0; i < n; i++)
+                    st = norm(c.newchar((char)seq[i]));
+                memcpy(buf_, save.data(), (size_t)cap_);
+                return st;
+            };
+            auto esc = [&](uint8_t x, uint8_t *o) {
+                if (x == M_.start)
+                    return o[0] = M_.stub, o[1] = M_.c_start, 2;
+                if (x == M_.stop)
+                    return o[0] = M_.stub, o[1] = M_.c_stop, 2;
+                if (x == M_.stub)
+                    return o[0] = M_.stub, o[1] = M_.c_stub, 2;
+                return o[0] = x, 1;
+            };
+            uint8_t one[4][1] = {{'a'}, {M_.start}, {M_.stop}, {M_.stub}};
+            for (auto &q : one)
+                s += (char)('0' + run(q, 1));
+            uint8_t codes[3] = {M_.c_start, M_.c_stop, M_.c_stub};
+            for (uint8_t c : codes)
+            {
+                uint8_t q[2] = {c, M_.stop};
+                s += (char)('0' + run(q, 2));
+            }
+            for (int variant = 0; variant < 2; variant++)
+            {
+                int found = -1;
+                for (int x = 0; x < 256 && found < 0; x++)
+                {
+                    uint8_t q[4];
+                    int n = 0;
+                    if (variant)
+                        q[n++] = M_.c_start;
+                    n += esc((uint8_t)x, q + n);
+                    q[n++] = M_.stop;
+                    if (run(q, n) == NEWPACKAGE)
+                        found = x;
+                }
+                char h[16];
+                snprintf(h, sizeof h, ",%d", found);
+                s += h;
+            }
+            return s;
+        }
+        std::string implkey() override
+        {
+#ifndef GS_NO_PROBE
+            if constexpr (std::is_copy_constructible<gstuff_autorecv>::value)
+                return public_part() + probe_key(r);
+            else
+#endif
+                return public_part();
+        }
+#endif
     };
+    int cfg_key_mode()
+    {
+#ifndef GS_PUBLIC_ONLY
+        return 0;
+#elif defined(GS_NO_PROBE)
+        return 2;
+#else
+        return std::is_copy_constructible<gstuff_autorecv>::value ? 1 : 2;
+#endif
+    }
     Receiver *make_cfg_receiver(int codec, uint8_t *buf, int cap) { return new CfgReceiver(codec, buf, cap); }
 
     int cfg_encode_raw(int codec, const uint8_t *data, size_t n, uint8_t *out)
